@@ -5,7 +5,7 @@
 # meta.json "also_checked"), and records whether a VIOLATION was reported. Writes /verif/seeded/RESULTS.md.
 cd "$(dirname "$0")/.."
 names=("$@"); [ ${#names[@]} -eq 0 ] && names=($(ls seeded | grep -v RESULTS.md | sort))
-out=seeded/RESULTS.md
+out=${OUT:-seeded/RESULTS.md}
 {
 echo "# Seeded changes vs checks (quick tier), /repo HEAD $(git -C /repo rev-parse --short HEAD), $(date -u +%F)"
 echo
